@@ -13,6 +13,7 @@ import (
 	kemtypes "github.com/flant/shell-operator/pkg/kube_events_manager/types"
 	"github.com/flant/shell-operator/pkg/metric"
 	utils "github.com/flant/shell-operator/pkg/utils/labels"
+	"github.com/flant/shell-operator/pkg/utils/verifhook"
 )
 
 type Monitor interface {
@@ -216,6 +217,7 @@ func (m *monitor) CreateInformers() error {
 				ctx, cancelForNs := context.WithCancel(m.ctx)
 				m.cancelForNs.Store(nsName, cancelForNs)
 
+				verifhook.Point("mon.nsadd.beforeFlagCheck", m.Config.Metadata.MonitorId, nsName)
 				for _, informer := range varyingInformers {
 					informer.withContext(ctx)
 					if m.eventsEnabled {
@@ -223,6 +225,7 @@ func (m *monitor) CreateInformers() error {
 					}
 					informer.start()
 				}
+				verifhook.Point("mon.nsadd.done", m.Config.Metadata.MonitorId, nsName)
 			},
 			func(nsName string) {
 				// Delete event: check, stop and remove informers for Ns
@@ -304,6 +307,7 @@ func (m *monitor) EnableKubeEventCb() {
 			informer.enableKubeEventCb()
 		}
 	})
+	verifhook.Point("mon.enable.beforeFlag", m.Config.Metadata.MonitorId)
 	// Enable events for future VaryingInformers.
 	m.eventsEnabled = true
 }
